@@ -28,7 +28,7 @@ def provide_residue():
 
 
 def run(ch, params, decoded=False):
-    knobs = R.draw_knobs(ch)
+    knobs = R.draw_knobs(ch, registries=True)
     mode = ["django", "isolated"][ch.draw(2, "mode")]
     n = 1 + ch.small(params["max_renders"] - 1, "n_renders", 1, 2)
     ops = []
@@ -44,7 +44,7 @@ def run(ch, params, decoded=False):
             ops.append({"op": "gc"})
     w = R.start_world(knobs, mode)
     violations = []
-    stats = {"mode=" + mode: 1, "renders": n}
+    stats = {"mode=" + mode: 1, "renders": n, "registry=" + knobs.get("registry", "default"): 1}
     observed = []
     nontrivial = False
     keyparts = []
